@@ -157,6 +157,47 @@ def _one(raw):
                 gotname2 = util_import.modpath_to_modname(os.path.join(path, '__init__.py'))
                 if gotname2 != expname:
                     bad.append(('modpath_to_modname[%s/__init__.py]' % '/'.join(p), expname, gotname2))
+        # __main__.py and hide_main: inside a package the name / path of the package stands for it; a __main__.py in a plain
+        # directory is just a module called __main__ (there is no package to fall back to)
+        for (kind, p), k in splits:
+            p = tuple(p)
+            if kind == 'pkg' and tree.get(p) in ('pkgmain', 'pkgmainfile'):
+                base = os.path.join(root, *p)
+                mainp = os.path.join(base, '__main__.py')
+                dotted = '.'.join(p[k:])
+                sroot = os.path.join(root, *p[:k]) if k else root
+                checks = [('modpath_to_modname[%s/__main__.py,hide_main]' % '/'.join(p), dotted, lambda: util_import.modpath_to_modname(mainp, hide_main=True)),
+                          ('modpath_to_modname[%s/__main__.py]' % '/'.join(p), dotted + '.__main__', lambda: util_import.modpath_to_modname(mainp)),
+                          ('normalize_modpath[%s/__main__.py,hide_main]' % '/'.join(p), base, lambda: util_import.normalize_modpath(mainp, hide_main=True)),
+                          ('modname_to_modpath[%s.__main__,hide_main]' % dotted, base,
+                           lambda: util_import.modname_to_modpath(dotted + '.__main__', hide_main=True, sys_path=[sroot]))]
+                for label, expv, fn in checks:
+                    try:
+                        gotv = fn()
+                    except Exception as ex:
+                        gotv = 'raised %r' % (ex,)
+                    if gotv != expv:
+                        bad.append((label, expv, gotv))
+        plain = sorted(p for p, st in tree.items() if st in ('dir', 'dirfile') and len(p) == 1)
+        for p in plain[:1 + rot % 2]:
+            base = os.path.join(root, *p)
+            mainp = os.path.join(base, '__main__.py')
+            with open(mainp, 'w') as f:
+                f.write(DOC_MODULE)
+            importlib.invalidate_caches()
+            checks = [('modpath_to_modname[%s/__main__.py in a plain directory,hide_main]' % '/'.join(p), '__main__', lambda: util_import.modpath_to_modname(mainp, hide_main=True)),
+                      ('modpath_to_modname[%s/__main__.py in a plain directory]' % '/'.join(p), '__main__', lambda: util_import.modpath_to_modname(mainp)),
+                      ('normalize_modpath[%s/__main__.py in a plain directory,hide_main]' % '/'.join(p), mainp, lambda: util_import.normalize_modpath(mainp, hide_main=True)),
+                      ('modname_to_modpath[__main__ in a plain directory,hide_main]', mainp, lambda: util_import.modname_to_modpath('__main__', hide_main=True, sys_path=[base])),
+                      ('modname_to_modpath[__main__ in a plain directory]', mainp, lambda: util_import.modname_to_modpath('__main__', sys_path=[base]))]
+            for label, expv, fn in checks:
+                try:
+                    gotv = fn()
+                except Exception as ex:
+                    gotv = 'raised %r' % (ex,)
+                if gotv != expv:
+                    bad.append((label, expv, gotv))
+            os.unlink(mainp)
         # import by path: a sample of the module files, one of them failing at import time
         # (a module file shadowed by a package directory of the same name is not what its name imports)
         mods = sorted((tuple(p), k) for (kind, p), k in splits if kind == 'mod' and tree.get(tuple(p)) in ('file', 'dirfile'))
